@@ -2671,13 +2671,13 @@ Proof.
   pose (hcx := hc || hard bs g (Repeat c lo hi gr)).
   destruct (N.eqb hi usize_max && N.eqb (min_size c) 0) eqn:EB.
   { (* RepeatEpsilon *)
-    apply andb_true_iff in EB as [E1 E2]. apply N.eqb_eq in E1, E2.
+    apply andb_true_iff in EB as [E1 E2]. apply N.eqb_eq in E1, E2. subst hi.
     apply bindc_inr in Hv as ([cc ns1] & Hc & Hr). inversion Hr; subst code ns'. clear Hr.
     apply At_cons in HAt as [Ha1 HAt]. apply At_cons in HAt as [Ha2 HAt]. apply At_app in HAt as [HAc HAj]. apply At_cons in HAj as [Ha3 _].
     apply okdeleg2_cons in Hnd as [_ Hnd]. apply okdeleg2_cons in Hnd as [_ Hnd]. apply okdeleg2_app in Hnd as [Hndc _].
     replace (pc + 2) with (S (S pc)) in * by lia.
     destruct (IH g _ (S (S pc)) (ns + 2) cc ns1 Hc Hndc HAc Hoc ltac:(lia) Hng) as [Hmono IHc].
-    split; [lia|]. intros v K Hsl Hok. rewrite sem_repeat_eq. rewrite E1, N.eqb_refl.
+    split; [lia|]. intros v K Hsl Hok. rewrite sem_repeat_eq. rewrite N.eqb_refl.
     set (q := pc + length (ISave0 ns :: (if gr then IRepeatEpsilonGr lo (S (S pc) + length cc + 1) ns (ns + 1)
                                           else IRepeatEpsilonNg lo (S (S pc) + length cc + 1) ns (ns + 1)) :: cc ++ [IJmp (pc + 1)])).
     assert (Eq : q = S (S pc) + length cc + 1) by (unfold q; cbn [length]; rewrite app_length; cbn [length]; lia).
@@ -2704,13 +2704,13 @@ Proof.
   { intros Hm. apply body_adv; [now apply at_wfe|]. rewrite at_min. intros Hz0. rewrite Hm, Hz0 in EB. discriminate. }
   destruct (N.eqb lo 0 && N.eqb hi usize_max) eqn:EC.
   { (* star *)
-    apply andb_true_iff in EC as [E1 E2]. apply N.eqb_eq in E1, E2. subst lo.
+    apply andb_true_iff in EC as [E1 E2]. apply N.eqb_eq in E1, E2. subst lo. subst hi.
     apply bindc_inr in Hv as ([cc ns1] & Hc & Hr). inversion Hr; subst code ns'. clear Hr.
     apply At_cons in HAt as [Ha1 HAt]. apply At_app in HAt as [HAc HAj]. apply At_cons in HAj as [Ha3 _].
     apply okdeleg2_cons in Hnd as [_ Hnd]. apply okdeleg2_app in Hnd as [Hndc _].
     replace (pc + 1) with (S pc) in * by lia.
     destruct (IH g _ (S pc) ns cc ns1 Hc Hndc HAc Hoc Hns Hng) as [Hmono IHc].
-    split; auto. intros v K Hsl Hok. rewrite sem_repeat_eq. rewrite E2, N.eqb_refl.
+    split; auto. intros v K Hsl Hok. rewrite sem_repeat_eq. rewrite N.eqb_refl.
     change (N.to_nat 0) with 0. cbn [rep_must].
     rewrite flat_map_single.
     set (q := pc + length ((if gr then ISplit (S pc) (S pc + length cc + 1) else ISplit (S pc + length cc + 1) (S pc)) :: cc ++ [IJmp pc])).
@@ -2727,12 +2727,12 @@ Proof.
     - lia. }
   destruct (N.eqb lo 1 && N.eqb hi usize_max) eqn:ED.
   { (* plus *)
-    apply andb_true_iff in ED as [E1 E2]. apply N.eqb_eq in E1, E2. subst lo.
+    apply andb_true_iff in ED as [E1 E2]. apply N.eqb_eq in E1, E2. subst lo. subst hi.
     apply bindc_inr in Hv as ([cc ns1] & Hc & Hr). inversion Hr; subst code ns'. clear Hr.
     apply At_app in HAt as [HAc HAj]. apply At_cons in HAj as [Ha3 _].
     apply okdeleg2_app in Hnd as [Hndc _].
     destruct (IH g _ pc ns cc ns1 Hc Hndc HAc Hoc Hns Hng) as [Hmono IHc].
-    split; auto. intros v K Hsl Hok. rewrite sem_repeat_eq. rewrite E2, N.eqb_refl.
+    split; auto. intros v K Hsl Hok. rewrite sem_repeat_eq. rewrite N.eqb_refl.
     change (N.to_nat 1) with 1. cbn [rep_must]. rewrite flat_map_id.
     set (q := pc + length (cc ++ [if gr then ISplit pc (pc + length cc + 1) else ISplit (pc + length cc + 1) pc])).
     assert (Eq : q = pc + length cc + 1) by (unfold q; rewrite app_length; cbn [length]; lia).
